@@ -17,7 +17,7 @@ pub const SPEC: Spec = Spec {
     rule: "a program IR from G-prog (Core or Elements jets; witness, disconnect, assertions, fail, words; sharing swept), with: two independent witness assignments, variants of every disconnect node (no branch / other branch), a drawn set of sub-expressions to hide through the Hiding wrapper, every conversion path (construct -> commit -> redeem -> unfinalize -> unfinalize_types, to_construct_node, named nodes), and 1-3 single edits of committed structure (combinator swapped within its arity class, children swapped, other jet, one word bit, one fail-entropy bit, one hidden-root bit, leaf replaced). Oracle: model::cmr (from-scratch tagged hashing of the IR) for every node of every form; invariance under every non-committed change; edited programs get a different root (from the crate's Cmr constructors) whenever the reference roots differ. Non-trivial: >= 6 nodes with >= 1 of witness/disconnect/hidden/word. Distinct by program.",
     design_ref: "§6 C09",
     max_len: 1500,
-    quick_cases: 10_000,
+    quick_cases: 20_000,
     thorough_cases: 250_000,
     ..Spec::base("C09", "The commitment root depends only on committed structure", case)
 };
